@@ -9,6 +9,7 @@ import (
 	"os"
 	"os/exec"
 	"regexp"
+	"sort"
 	"strings"
 	"sync"
 	"time"
@@ -172,7 +173,7 @@ func buildScript(decls []string, axioms []string, o *Obl, forCVC5 bool, slice bo
 				continue
 			}
 			for _, t := range identRe.FindAllString(a, -1) {
-				if needed[t] && (strings.HasPrefix(t, "strlit_") || t == "str_lt" || strings.HasPrefix(t, "fn_") || strings.HasPrefix(t, "uf_")) {
+				if needed[t] && (strings.HasPrefix(t, "strlit_") || t == "str_lt" || strings.HasPrefix(t, "fn_") || strings.HasPrefix(t, "uf_") || strings.HasPrefix(t, "gbase_")) {
 					inclAx[i] = true
 					addToks(a)
 					changed = true
@@ -208,6 +209,28 @@ func buildScript(decls []string, axioms []string, o *Obl, forCVC5 bool, slice bo
 	for _, d := range extraDecls {
 		sb.WriteString(d)
 		sb.WriteByte('\n')
+	}
+	{
+		// bases of lookup tables are introduced lazily (possibly after this obligation was recorded);
+		// the axioms about them are global, so declare the ones the included axioms mention
+		have := map[string]bool{}
+		for i := range decls {
+			if inclDecl[i] {
+				for _, n := range names[i] {
+					have[n] = true
+				}
+			}
+		}
+		var miss []string
+		for t := range needed {
+			if strings.HasPrefix(t, "gbase_") && !have[t] {
+				miss = append(miss, t)
+			}
+		}
+		sort.Strings(miss)
+		for _, t := range miss {
+			sb.WriteString("(declare-const " + t + " Int)\n")
+		}
 	}
 	for i, a := range axioms {
 		if inclAx[i] {
@@ -469,6 +492,24 @@ func dischargeAll(v *V, opts SolveOpts) {
 			o.Model = r.out
 		}
 	})
+	{
+		// a vacuity guard that fired on a path that is itself infeasible (the path condition before
+		// the guarded assumptions is already unsatisfiable) says nothing about the contract
+		var fired []*Obl
+		for _, o := range v.obls {
+			if o.Expect == "sat" && o.Status == "unsat" && o.AltPC != nil {
+				fired = append(fired, o)
+			}
+		}
+		stage(fired, w2, func(o *Obl) {
+			alt := &Obl{Name: o.Name, PC: o.AltPC, Goal: "false", Expect: "sat", NDecls: o.NDecls}
+			s, sc := scripts(alt, false)
+			r := race(s, sc, opts.Timeout, nil)
+			if r.status == "unsat" {
+				o.Status, o.Solver, o.Stage = "dead-path", r.solver, "alt"
+			}
+		})
+	}
 	if opts.Thorough {
 		// cross-check: every discharged obligation must also be discharged by a second solver binary
 		var unsat []*Obl
